@@ -72,6 +72,134 @@ def scan():
                     clears.append([fn.name, ast.unparse(n.func.value)])
     return {"new": res, "lock_defined": lock_defined, "asserts": asserts, "cached": cached, "clears": clears}
 
+class Untranslatable(Exception):
+    pass
+
+def translate_new(fn):
+    """__new__ as a program of Model/NewProg.v: [(coq instruction, source line or None)], fail-closed.
+    Register `true` is the one local variable assigned from cls._known.get(...) / .setdefault(...); register `false` is the outcome of
+    the membership test `key in cls._known`.  A line is given to the instruction it makes observable to the line scheduler; None means
+    the instruction is taken silently (Model/NewProg.v, replay)."""
+    out = []
+    reg = [None]          # name of the register variable
+    state = {"key_assigned": False}
+    def src(n): return ast.unparse(n)
+    def touches(n): return "._known" in src(n) or "_interning" in src(n)
+    def is_table(n): return isinstance(n, ast.Attribute) and n.attr == "_known"
+    def table_call(n, name):
+        return isinstance(n, ast.Call) and isinstance(n.func, ast.Attribute) and n.func.attr == name and is_table(n.func.value)
+    def is_key(n): return isinstance(n, ast.Name) and n.id == "key"
+    def is_alloc(n): return isinstance(n, ast.Call) and src(n.func) in ("super().__new__", "object.__new__")
+    def the_reg(name):
+        if reg[0] is None: reg[0] = name
+        if reg[0] != name: raise Untranslatable(f"two variables hold looked-up objects: {reg[0]}, {name}")
+    def leaves_only(body):
+        for st in body:
+            if isinstance(st, ast.Raise) or isinstance(st, ast.Pass): continue
+            if isinstance(st, ast.Return):
+                if st.value is not None and (touches(st.value) or src(st.value) == "self" or (reg[0] and src(st.value) == reg[0])): return False
+                continue
+            if isinstance(st, ast.If):
+                if touches(st.test) or not leaves_only(st.body) or not leaves_only(st.orelse): return False
+                continue
+            if isinstance(st, ast.Assign) and len(st.targets) == 1 and is_key(st.targets[0]) and not touches(st.value): continue
+            return False
+        return True
+    def emit(body, in_lock):
+        for st in body:
+            ln = st.lineno
+            if isinstance(st, ast.With):
+                names = [src(i.context_expr) for i in st.items]
+                if any(n == "_interning" or n.endswith("._interning") for n in names):
+                    if len(names) != 1: raise Untranslatable("with _interning combined with other context managers")
+                    out.append(("IAcquire", None)); emit(st.body, True)
+                    # leaving the block by falling through: the interpreter reports the `with` line a second time and releases the lock
+                    # there (a negative line number stands for "the second time this thread is at that line")
+                    if not isinstance(st.body[-1], (ast.Return, ast.Raise)): out.append(("IRelease", -ln))
+                elif any(touches(i.context_expr) for i in st.items): raise Untranslatable("with over the table")
+                else: emit(st.body, in_lock)
+            elif isinstance(st, ast.Assign):
+                if len(st.targets) != 1: raise Untranslatable("multiple assignment targets")
+                t, v = st.targets[0], st.value
+                if isinstance(t, ast.Subscript) and is_table(t.value):
+                    if not (is_key(t.slice) and src(v) == "self"): raise Untranslatable("table store of something other than self under key: " + src(st))
+                    out.append(("IStore", ln))
+                elif isinstance(t, ast.Name) and t.id == "self":
+                    if not is_alloc(v): raise Untranslatable("self assigned from " + src(v))
+                    out.append(("IAlloc", ln))
+                elif isinstance(t, ast.Name) and table_call(v, "get"):
+                    if not (v.args and is_key(v.args[0]) and not v.keywords): raise Untranslatable("lookup of another key: " + src(st))
+                    the_reg(t.id)
+                    if len(v.args) == 1: out.append(("IGet true", ln))
+                    elif len(v.args) == 2 and src(v.args[1]) == t.id: out.append(("IGetDefault true", ln))
+                    else: raise Untranslatable("lookup with a default other than the variable itself: " + src(st))
+                elif isinstance(t, ast.Name) and table_call(v, "setdefault"):
+                    if not (len(v.args) == 2 and is_key(v.args[0]) and src(v.args[1]) == "self"): raise Untranslatable(src(st))
+                    the_reg(t.id); out.append(("ISetDefault (Some true)", ln))
+                elif touches(st): raise Untranslatable("unrecognised use of the table: " + src(st))
+                elif isinstance(t, ast.Name) and reg[0] and t.id == reg[0]: raise Untranslatable("the looked-up variable is reassigned: " + src(st))
+                elif is_key(t):
+                    out.append(("IMayLeave" if state["key_assigned"] else "ISkip", None)); state["key_assigned"] = True
+                else: out.append(("ISkip", None))
+            elif isinstance(st, ast.Expr):
+                if table_call(st.value, "setdefault"):
+                    v = st.value
+                    if not (len(v.args) == 2 and is_key(v.args[0]) and src(v.args[1]) == "self"): raise Untranslatable(src(st))
+                    out.append(("ISetDefault None", ln))
+                elif touches(st): raise Untranslatable("unrecognised use of the table: " + src(st))
+                else: out.append(("ISkip", None))
+            elif isinstance(st, ast.Return):
+                v = st.value
+                if v is not None and src(v) == "self": out.append(("IRetSelf", ln))
+                elif v is not None and reg[0] and src(v) == reg[0]: out.append(("IRetReg true", ln))
+                elif v is not None and table_call(v, "setdefault"):
+                    if not (len(v.args) == 2 and is_key(v.args[0]) and src(v.args[1]) == "self"): raise Untranslatable(src(st))
+                    the_reg(reg[0] or "known"); out.append(("ISetDefault (Some true)", ln)); out.append(("IRetReg true", ln))
+                elif v is not None and isinstance(v, ast.Subscript) and is_table(v.value) and is_key(v.slice):
+                    the_reg(reg[0] or "known"); out.append(("IGet true", ln)); out.append(("IRetReg true", ln))
+                elif v is not None and touches(v): raise Untranslatable("unrecognised use of the table: " + src(st))
+                else: out.append(("IMayLeave", None))
+            elif isinstance(st, ast.If):
+                t = st.test
+                if isinstance(t, ast.Compare) and len(t.ops) == 1 and isinstance(t.ops[0], ast.In) and is_key(t.left) and is_table(t.comparators[0]):
+                    ok = (not st.orelse and len(st.body) == 1 and isinstance(st.body[0], ast.Return) and isinstance(st.body[0].value, ast.Subscript)
+                          and is_table(st.body[0].value.value) and is_key(st.body[0].value.slice))
+                    if not ok: raise Untranslatable("membership test not followed by `return cls._known[key]`: " + src(st)[:80])
+                    out.append(("IGet false", ln)); out.append(("IRetTabIf false", st.body[0].lineno))
+                elif (isinstance(t, ast.Compare) and len(t.ops) == 1 and isinstance(t.ops[0], ast.IsNot) and isinstance(t.left, ast.Name)
+                      and reg[0] and t.left.id == reg[0] and src(t.comparators[0]) == "None"):
+                    ok = not st.orelse and len(st.body) == 1 and isinstance(st.body[0], ast.Return) and src(st.body[0].value) == reg[0]
+                    if not ok: raise Untranslatable("`if known is not None` not followed by `return known`: " + src(st)[:80])
+                    out.append(("IRetIf true", st.body[0].lineno))
+                elif touches(t): raise Untranslatable("unrecognised test on the table: " + src(t))
+                elif leaves_only(st.body) and leaves_only(st.orelse): out.append(("IMayLeave", None))
+                else: raise Untranslatable("a branch that neither leaves nor is a recognised lookup: " + src(st)[:80])
+            elif isinstance(st, ast.Raise): out.append(("IMayLeave", None))
+            elif isinstance(st, ast.Pass): pass
+            elif isinstance(st, (ast.For, ast.While, ast.Try)): raise Untranslatable(f"unsupported statement in __new__: {type(st).__name__}")
+            elif touches(st): raise Untranslatable("unrecognised use of the table: " + src(st)[:80])
+            else: out.append(("ISkip", None))
+    emit(fn.body, False)
+    return out
+
+def programs():
+    """{class name: {"prog": [(instr, line)], "first": first line, "last": last line of __new__}}"""
+    tree = ast.parse(open(os.path.join(SRC, "__init__.py")).read())
+    res = {}
+    for cls in tree.body:
+        if isinstance(cls, ast.ClassDef) and cls.name in ("Dimension", "Prefix", "Unit"):
+            for fn in cls.body:
+                if isinstance(fn, ast.FunctionDef) and fn.name == "__new__":
+                    res[cls.name] = {"prog": translate_new(fn), "first": fn.lineno, "last": fn.end_lineno}
+    if sorted(res) != ["Dimension", "Prefix", "Unit"]: raise Untranslatable("missing __new__: " + str(sorted(res)))
+    return res
+
+def coq_programs(pr):
+    lines = ["From Coq Require Import List Bool. Import ListNotations.", "From Measured Require Import Model.NewProg.", ""]
+    for c in ("Dimension", "Prefix", "Unit"):
+        lines.append(f"Definition {c.lower()}_prog : list instr := [" + "; ".join(i for i, _ in pr[c]["prog"]) + "].")
+    return "\n".join(lines) + "\n"
+
 def coq_struct(s):
     def body(l):
         return "[" + "; ".join(f"({k}, {'Some ' + str(r) + '%nat' if r is not None else 'None'})" for k, r in l) + "]"
@@ -84,3 +212,4 @@ def coq_struct(s):
 if __name__ == "__main__":
     s = scan()
     print(json.dumps(s, indent=1)); print(coq_struct(s))
+    pr = programs(); print(json.dumps(pr)); print(coq_programs(pr))
